@@ -238,7 +238,9 @@ def validate(res, exe, returned, s):
     """Serval-style: the encoding's prediction vs the real code on boundary values."""
     import re
     cases = [(75.0, 750.0, 'rpx'), (1.0, 3.0, 'rpx'), (-20.0, 750.0, 'rpx'), (0.5, 375.0, 'rpx'), (12.0, 750.0, 'px'),
-             (750.0, 750.0, 'rpx'), (100000.0, 1.5, 'rpx'), (3.0, 750.0, 'RPX')]
+             (750.0, 750.0, 'rpx'), (100000.0, 1.5, 'rpx'), (3.0, 750.0, 'RPX'),
+             # magnitudes the serialiser prints with an exponent (one and several significant digits)
+             (7.5e-7, 750.0, 'rpx'), (1e-7, 100.0, 'rpx'), (0.001, 1000000.0, 'rpx'), (1.5e-7, 100.0, 'rpx'), (2.5e20, 0.5, 'rpx'), (1e-9, 1.0, 'px'), (5e21, 1.0, 'px')]
     agree = 0
     for v, r, unit in cases:
         out = run_css(repr(v), r, unit)
@@ -258,6 +260,13 @@ def validate(res, exe, returned, s):
             res.inconc('translator validation: no prediction / output for %r%s (%r)' % (v, unit, out))
             continue
         got, gu = float(m.group(1)), m.group(2)
+        if gu == pred[1] and abs(got - pred[0]) > 1e-3 * abs(pred[0]):
+            # far outside the 6-significant-digit print of the serialiser: the emitted number is wrong (serialisation is not proved, but
+            # a concrete wrong output is a replayed violation)
+            res.violation({'engine': 'replay', 'harness': 'M10-validate', 'class': 'serialisation'},
+                          'dimension %r%s with ratio %r is emitted as %r: the value %g differs from %g' % (v, unit, r, out.get('normal'), got, pred[0]),
+                          {'css': 'a{b:%r%s}' % (v, unit), 'ratio': r})
+            continue
         if gu != pred[1] or abs(got - pred[0]) > 2e-5 * abs(pred[0]):
             res.inconc('translator validation: %r%s ratio %r: encoding predicts %r, real output %r' % (v, unit, r, pred, out.get('normal')))
         else:
